@@ -2213,6 +2213,126 @@ theorem create_modules_once (pool cfg : List ModCfg) (fuel depth : Nat) :
   unfold NamesNodup at h
   exact (List.Nodup.sublist (List.Sublist.map _ List.filter_sublist) h)
 
+/-! every module of the configuration comes into being -/
+
+/-- nothing is un-made and no error is forgotten -/
+def Sub (s s' : St) : Prop := (∀ x, isCreated s x = true → isCreated s' x = true) ∧ s.errors ≤ s'.errors
+
+theorem Sub.rfl' (s : St) : Sub s s := ⟨fun _ h => h, Nat.le_refl _⟩
+theorem Sub.trans' {a b c : St} (h1 : Sub a b) (h2 : Sub b c) : Sub a c :=
+  ⟨fun x h => h2.1 x (h1.1 x h), Nat.le_trans h1.2 h2.2⟩
+
+theorem isCreated_addModule (s : St) (name : String) (e : Bool) (x : String) :
+    isCreated (addModule s name e) x = (isCreated s x || name == x) := by
+  simp [isCreated, addModule, List.any_append]
+
+theorem getInstance_sub (s : St) (name : String) : Sub s (getInstance s name).1 := by
+  unfold getInstance
+  split
+  · exact Sub.rfl' s
+  · split
+    · exact ⟨fun _ h => h, Nat.le_succ _⟩
+    · refine ⟨fun x h => ?_, Nat.le_refl _⟩
+      rw [isCreated_addModule, h]; rfl
+
+theorem foldl_sub {α : Type} (g : St → α → St) (hg : ∀ b a, Sub b (g b a)) :
+    ∀ (l : List α) (b : St), Sub b (l.foldl g b)
+  | [], b => Sub.rfl' b
+  | a :: l, b => Sub.trans' (hg b a) (foldl_sub g hg l (g b a))
+
+theorem getModule_sub : ∀ (fuel : Nat) (s : St) (name : String), Sub s (getModule fuel s name)
+  | 0, s, name => ⟨fun _ h => h, Nat.le_succ _⟩
+  | fuel + 1, s, name => by
+    have hi := getInstance_sub s name
+    unfold getModule
+    generalize getInstance s name = r at hi
+    obtain ⟨s1, b⟩ := r
+    cases b with
+    | false => exact hi
+    | true =>
+      simp only
+      split
+      · exact hi
+      · split
+        · exact Sub.trans' hi ⟨fun _ h => h, Nat.le_succ _⟩
+        · refine Sub.trans' hi ?_
+          have h2 := foldl_sub (fun s a => getModule fuel s a) (fun b a => getModule_sub fuel b a)
+            (match lookup s1 name with
+              | some c => c.attached
+              | none => []) { s1 with initializing := name :: s1.initializing }
+          exact ⟨fun x h => h2.1 x h, h2.2⟩
+
+theorem createLoop_sub (pool : List ModCfg) (depth : Nat) :
+    ∀ (fuel : Nat) (todos : List ModCfg) (s : St), Sub s (createLoop pool depth fuel todos s)
+  | 0, [], s => Sub.rfl' s
+  | 0, _ :: _, s => ⟨fun _ h => h, Nat.le_succ _⟩
+  | _ + 1, [], s => Sub.rfl' s
+  | fuel + 1, c :: todos, s => by
+    unfold createLoop
+    split
+    · exact createLoop_sub pool depth fuel todos s
+    · have h1 : Sub s (getInstance { s with table := c :: s.table } c.name).1 :=
+        let h := getInstance_sub { s with table := c :: s.table } c.name
+        ⟨fun x hx => h.1 x hx, h.2⟩
+      split
+      · exact Sub.trans' h1 (Sub.trans' (getModule_sub depth _ _) (createLoop_sub pool depth fuel _ _))
+      · exact Sub.trans' h1 (createLoop_sub pool depth fuel _ _)
+
+/-- the entry just written into `srv.module_cfg` is the one the module is made from -/
+theorem getInstance_creates (s : St) (c : ModCfg) :
+    isCreated (getInstance { s with table := c :: s.table } c.name).1 c.name = true := by
+  unfold getInstance
+  split
+  · assumption
+  · have hl : lookup { s with table := c :: s.table } c.name = some c := by simp [lookup, List.find?_cons]
+    rw [hl]
+    simp only
+    rw [isCreated_addModule]; simp
+
+theorem createLoop_creates (pool : List ModCfg) (depth : Nat) :
+    ∀ (fuel : Nat) (todos : List ModCfg) (s : St), (createLoop pool depth fuel todos s).errors = 0 →
+      ∀ c ∈ todos, isCreated (createLoop pool depth fuel todos s) c.name = true
+  | 0, [], s, _, c, hc => by cases hc
+  | 0, _ :: _, s, h, c, hc => by simp [createLoop] at h
+  | _ + 1, [], s, _, c, hc => by cases hc
+  | fuel + 1, c0 :: todos, s, h, c, hc => by
+    unfold createLoop at h ⊢
+    split at h
+    · rename_i hcr
+      rw [if_pos hcr]
+      rcases List.mem_cons.mp hc with rfl | hc'
+      · exact (createLoop_sub pool depth fuel todos s).1 _ hcr
+      · exact createLoop_creates pool depth fuel todos s h c hc'
+    · rename_i hcr
+      rw [if_neg hcr]
+      have hmade := getInstance_creates s c0
+      split at h
+      · rename_i hp
+        simp only [hp, if_true]
+        rcases List.mem_cons.mp hc with rfl | hc'
+        · exact (createLoop_sub pool depth fuel _ _).1 _ ((getModule_sub depth _ _).1 _ hmade)
+        · exact createLoop_creates pool depth fuel _ _ h c (List.mem_append_left _ hc')
+      · rename_i hp
+        simp only [hp]
+        rcases List.mem_cons.mp hc with rfl | hc'
+        · exact (createLoop_sub pool depth fuel _ _).1 _ hmade
+        · exact createLoop_creates pool depth fuel _ _ h c hc'
+
+/-- **create_modules_creates**: when `create_modules` meets no error (no unknown attached module, no cyclic dependency;
+for the model: enough fuel), every module of the configuration exists afterwards — in its own turn or before it -/
+theorem create_modules_creates (pool cfg : List ModCfg) (fuel depth : Nat)
+    (h : (createModules pool cfg fuel depth).errors = 0) :
+    ∀ c ∈ cfg, isCreated (createModules pool cfg fuel depth) c.name = true := by
+  intro c hc
+  have key : createModules pool cfg fuel depth =
+      ((createLoop pool depth fuel cfg { table := cfg }).created.map (·.1)).foldl (fun s a => getModule depth s a)
+        (createLoop pool depth fuel cfg { table := cfg }) := rfl
+  have hs := foldl_sub (fun s a => getModule depth s a) (fun b a => getModule_sub depth b a)
+    ((createLoop pool depth fuel cfg { table := cfg }).created.map (·.1)) (createLoop pool depth fuel cfg { table := cfg })
+  rw [← key] at hs
+  have h0 : (createLoop pool depth fuel cfg { table := cfg }).errors = 0 := Nat.le_zero.mp (h ▸ hs.2)
+  exact hs.1 _ (createLoop_creates pool depth fuel cfg _ h0 c hc)
+
 /-- the report follows the registration: for a node whose modules are the created module objects (name and `export` flag,
 in the order of creation), the modules of the report are the registered ones, in that order -/
 theorem describe_follows_registration (pre : Predef) (n : Node J V) (created : List (String × Bool))
@@ -2249,6 +2369,10 @@ example : (createModules pool5 cfg5 7 7).created =
 
 example : RegisteredOK (createModules pool5 cfg5 7 7).created (createModules pool5 cfg5 7 7).registered :=
   create_modules_registers pool5 cfg5 7 7
+
+/-- the hypothesis of `create_modules_creates` holds here: no error, so `bus` (and every other configured module) exists -/
+example : isCreated (createModules pool5 cfg5 7 7) "bus" = true :=
+  create_modules_creates pool5 cfg5 7 7 (by decide +kernel) ⟨"bus", true, false, [], []⟩ (by decide +kernel)
 
 /-- the monitor refuses the registry of the seeded change (`bus` created, exported, not registered) -/
 example : registeredB [("first", true), ("hub", false), ("bus", true), ("hidden", false), ("ch1", true), ("ch2", false)]
